@@ -123,7 +123,7 @@ func InjectUnionTypename(q *Query, s *Spec, alias string) *Query {
 		}
 		return res
 	}
-	out.Sels = walk("Query", false, q.Sels)
+	out.Sels = walk(q.Root(), false, q.Sels)
 	for _, f := range q.Frags {
 		_, isU := UnionTypes[f.On]
 		out.Frags = append(out.Frags, FragDef{Name: f.Name, On: f.On, Sels: walk(f.On, isU, f.Sels)})
